@@ -34,7 +34,9 @@ func pre(p unsafe.Pointer, write bool, what string) {
 		o = &vsched.SyncObj{}
 		locs[p] = o
 	}
-	vsched.AtomicAccess(p, write, vsched.CallerSite())
+	if s.RaceOn() {
+		vsched.AtomicAccess(p, write, vsched.CallerSite())
+	}
 	o.Acquire()
 	if write {
 		o.Release()
